@@ -163,3 +163,44 @@ Proof.
     apply RefineFacts.ssorted_ext; auto. intros x. rewrite (JA x), (JB x). tauto.
   - fold A B in T. rewrite RUN in T. discriminate.
 Qed.
+
+(** ---- end to end: two replicas built from any histories of offers, then one session ---- *)
+From ID Require Import Proofs.SwarmFacts.
+
+Theorem histories_then_session EH MAXF mss now ns lA lB :
+  Forall wf_entry lA -> Forall wf_entry lB ->
+  (forall e, In e (lA ++ lB) -> e_ns e = ns /\ vsync EH MAXF now ns e MISSING = true) ->
+  consistent (lA ++ lB) ->
+  let TA := fs_puts EH empty_tables lA in
+  let TB := fs_puts EH empty_tables lB in
+  let A := fs_all ns TA in let B := fs_all ns TB in
+  exists TA' TB' ocA ocB tr,
+    session prefix_succ EH MAXF mss 2 (length A + length B + 3) now ns ns TA TB (mkOC 0 0) (mkOC 0 0)
+            (initial_message (fs_ops prefix_succ EH ns) TA) true [] = Some (TA', TB', ocA, ocB, tr) /\
+    fs_all ns TA' = fs_all ns TB' /\
+    (forall x, In x (fs_all ns TA') <-> in_reduce (lA ++ lB) x).
+Proof.
+  intros FA FB OK C TA TB A B.
+  assert (CA : consistent lA) by (eapply consistent_app_l; eauto).
+  assert (CB : consistent lB) by (eapply consistent_app_r; eauto).
+  destruct (fs_puts_refines EH lA empty_tables [] wf_records_empty FA (fun _ => iff_refl _)) as [_ WA].
+  destruct (fs_puts_refines EH lB empty_tables [] wf_records_empty FB (fun _ => iff_refl _)) as [_ WB].
+  fold TA in WA. fold TB in WB.
+  pose proof WA as [_ WRA]. pose proof WB as [_ WRB].
+  assert (MA : forall x, In x A <-> in_reduce lA x).
+  { intros x. unfold A. rewrite (in_fs_all ns TA x WRA). unfold TA. rewrite (fs_puts_content EH lA FA CA x).
+    split; [tauto|]. intros H. split; auto. destruct H as [I _]. apply (OK x). apply in_or_app. now left. }
+  assert (MB : forall x, In x B <-> in_reduce lB x).
+  { intros x. unfold B. rewrite (in_fs_all ns TB x WRB). unfold TB. rewrite (fs_puts_content EH lB FB CB x).
+    split; [tauto|]. intros H. split; auto. destruct H as [I _]. apply (OK x). apply in_or_app. now right. }
+  assert (SUB : forall x, In x (A ++ B) -> In x (lA ++ lB)).
+  { intros x Hx. apply in_app_or in Hx. apply in_or_app. destruct Hx as [Hx|Hx]; [left; apply MA in Hx|right; apply MB in Hx]; now destruct Hx. }
+  assert (RA : reduced A) by (intros d e Hd He; apply MA in Hd; apply MA in He; destruct Hd as [Id _]; destruct He as [_ Te]; now apply Te).
+  assert (RB : reduced B) by (intros d e Hd He; apply MB in Hd; apply MB in He; destruct Hd as [Id _]; destruct He as [_ Te]; now apply Te).
+  assert (CAB : consistent (A ++ B)) by (apply (consistent_incl (lA ++ lB)); auto).
+  assert (V : forall e, In e (A ++ B) -> vsync EH MAXF now ns e MISSING = true) by (intros e He; apply OK; auto).
+  destruct (table_session_total EH MAXF mss now ns TA TB WA WB RA RB CAB V) as (TA' & TB' & ocA & ocB & tr & RUN & _ & JA & _ & EQ).
+  exists TA', TB', ocA, ocB, tr. split; [exact RUN|]. split; [exact EQ|].
+  intros x. fold A B in JA. rewrite (JA x). unfold join. rewrite reduce_spec.
+  rewrite <- (reduce_union lA lB C x). apply in_reduce_ext. intros a. rewrite !in_app_iff, !reduce_spec, MA, MB. tauto.
+Qed.
